@@ -127,6 +127,9 @@ def run(ctx) -> None:
 
     # ---- R4 ---------------------------------------------------------------------
     check_map_lists_follow_renames(ctx, "C06.R4")
+    from .c10 import check_map_over_order_kept
+
+    check_map_over_order_kept(ctx, "C06.R4")
 
     # ---- R5 ---------------------------------------------------------------------
     wr = db.func("nodes.base.HyperNode._with_renamed")
